@@ -120,6 +120,7 @@ def gen_case(rng, sched):
     # `churn` histories remove and re-add pilots often (also several pilots
     # per command, in any order) while tasks are between two notifications
     churn = rng.random() < 0.35
+    pfinal = set()          # pilots which were told final already
     for _ in range(rng.randint(4, 30)):
         kinds = ['submit'] * 4 + ['pump'] * 4 + ['pstate'] * 3
         if len(added) < len(pids): kinds += ['add'] * (5 if churn else 3)
@@ -155,7 +156,32 @@ def gen_case(rng, sched):
                 s = _PORDER[max(0, pstate[p] - 1)]             # stale
             else:
                 s = rng.choice(FINAL_STATES)
-            events.append(['pstate', p, s])
+            ev = ['pstate', p, s]
+            was_final = p in pfinal
+            if s in FINAL_STATES:
+                pfinal.add(p)
+            others = [x for x in pids if x != p and x not in pfinal]
+            if others and not was_final and rng.random() < 0.3:
+                # one state message can carry the changes of several pilots
+                # (a contradicting final state is documented to raise, which
+                # ends the handling of the message: those stay alone)
+                more = list()
+                for q in rng.sample(others, rng.randint(1, len(others))):
+                    if rng.random() < 0.5:
+                        pstate[q] = min(4, pstate[q] + 1)
+                        more.append([q, _PORDER[pstate[q]]])
+                    elif rng.random() < 0.5:
+                        pstate[q] = 4
+                        more.append([q, rps.PMGR_ACTIVE])
+                    else:
+                        more.append([q, rng.choice(FINAL_STATES)])
+                        pfinal.add(q)
+                if rng.random() < 0.5:
+                    ev.append(more)                 # the others come after
+                else:
+                    ev = ['pstate', more[0][0], more[0][1],
+                          more[1:] + [[p, s]]]      # ... or first
+            events.append(ev)
         elif k == 'tfinal':
             events.append(['tfinal', rng.randint(1, 4),
                            rng.choice(['full', 'full', 'partial', 'mid',
@@ -389,17 +415,23 @@ class Run(object):
                     self.role[p] = 'removed'
                 self.drain(('remove',))
             elif k == 'pstate':
-                _, p, s = ev
+                entries = [[ev[1], ev[2]]] + (ev[3] if len(ev) > 3 else [])
+                if len(entries) > 1:
+                    res.count('bulk_pilot_state_messages')
                 self.drain()
                 net.publish('mem://c/%s' % rpc.STATE_PUBSUB, rpc.STATE_PUBSUB,
                             {'cmd': 'update', 'arg': [{'uid': p,
-                             'type': 'pilot', 'state': s}]}, who='driver')
-                cur = self.pstate.get(p)
-                if cur is None or (cur not in FINAL_STATES and
-                                   (s in FINAL_STATES or _PV[s] > _PV[cur])):
-                    self.pstate[p] = s
-                elif cur in (rps.CANCELED, rps.FAILED) and s in FINAL_STATES:
-                    self.pstate[p] = s
+                             'type': 'pilot', 'state': s}
+                             for p, s in entries]}, who='driver')
+                for p, s in entries:
+                    cur = self.pstate.get(p)
+                    if cur is None or (cur not in FINAL_STATES and
+                                       (s in FINAL_STATES or
+                                        _PV[s] > _PV[cur])):
+                        self.pstate[p] = s
+                    elif cur in (rps.CANCELED, rps.FAILED) and \
+                            s in FINAL_STATES:
+                        self.pstate[p] = s
                 self.drain(('pstate',))
             elif k == 'tfinal':
                 _, n, form = ev
